@@ -634,7 +634,7 @@ class Walker:
                          f"sequence duration with fall time {totf} != max over channels {per}")
         # rounding really acted?
         name = self._op_channel(op)
-        if name and name in post.ch and not failed:
+        if name is not None and name in post.ch and not failed:
             for s in self._new_slots(pre, post, name):
                 auto = s[0] == "delay" and op["op"] not in ("delay",)
                 auto = auto or (s[0] == "target" and s[2] > s[1])
@@ -681,7 +681,7 @@ class Walker:
         found = {}
         for b in blocks:
             lines = b.strip().split("\n")
-            m = re.match(r"Channel: (.*)", lines[0])
+            m = re.match(r"Channel: ?(.*)", lines[0])
             if not m:
                 continue
             found[m.group(1)] = lines[1:]
@@ -1139,6 +1139,20 @@ class Walker:
             d = snap.diff(novar(ref), novar(snap.snapshot(cp)))
             if d:
                 ctx.fail(C, f"build:{snap.diff_key(d)}", f"seq.build() differs: {d}", cont=True)
+        if seq.is_register_mappable() and not seq.is_parametrized():
+            # building with some of the qubits mapped (what to_abstract_repr(qubits=...) does too)
+            # is a copy: the template keeps knowing all its qubits
+            ids_ = list(seq._register.qubit_ids)
+            part = {ids_[0]: 0}
+            try:
+                seq.build(qubits=part)
+                seq.to_abstract_repr(qubits=part)
+            except Exception:  # noqa: BLE001 - (e.g. calls that name qubits left unmapped)
+                ctx.label("partial_mapping_refused")
+            d = snap.diff(ref, snap.snapshot(seq))
+            if d:
+                ctx.fail(C, f"build_with_mapping_changes_template:{snap.diff_key(d)}",
+                         f"after build(qubits={part}) the template differs: {d}", cont=True)
         reg = seq._register
         sw = ctx.must(lambda: seq.switch_register(reg), C, "switch_register(same)")
         d = snap.diff(ref, snap.snapshot(sw))
